@@ -103,3 +103,56 @@ claim("C13", "path-order rules, goroutine/stop inventory over the VTA call graph
       "raised before `go` (defect F3 repaired in /repo); the listener is called iff !closed after the gate; every lifecycle use of observers is nil-guarded - "
       "violated in Stream.Close itself (known finding K2, listed by obligation key). NOT decided: bounded return time; no event after Close returned (gocbcore).",
       "DESIGN.md §3 C13, §4")
+
+claim("C14", "who-may-call + constant-prefix provenance of every written key, exhaustive evaluation of the filter and of the forwarder's metadata branch, reflection contract",
+      "Decides that the library cannot feed on its own writes: gocbcore mutators are called only by the document helpers with Key <- their id parameter, and at "
+      "every call of a mutating helper the id's leftmost constant is helpers.Prefix (directly, via getCheckpointID, or via a field every writer of which assigns "
+      "such a value); IsMetadata <=> valid && (HasPrefix(key, Prefix) || HasPrefix(key, TxnPrefix)) with the writers' constants, looked up under a field name that "
+      "is a promoted exported []byte field of the three document wrappers; the forwarder consults IsMetadata(payload) and on that branch calls the position "
+      "writer once with dirty=false, leaves the save flag alone and never calls the consumer; getCheckpointID = Prefix+group+const+Itoa(vbID) and panics for "
+      "every group name containing '.'. NOT decided: injectivity of the key as a string function; the closed-loop history argument.", "DESIGN.md §3 C14")
+
+claim("C15", "exhaustive order-abstraction evaluation of the checkpoint-ahead guard, error-flow taint to panic/return with dominance of the continuation, closed-switch rules",
+      "Decides the fail-fast guards of start-up: panic <=> stored seqNo > the same vBucket's sampled high seqNo, offset stored exactly otherwise; the errors of "
+      "Metadata.Load, GetVBucketSeqNos, GetFailOverLogs, the xattr read (other than key-not-found) and GetCollectionIDs reach a panic/return and the continuation "
+      "is dominated by err==nil; each opener spawned by openAllStreams panics on error itself (or records it under err!=nil only), Done after success, "
+      "Add(len)/Wait; the metadata, membership and leader-election selections panic on no match; the sequence-number query forwards a failed node's error on "
+      "every error path (defect F4 repaired); bounded reopen then panic. NOT decided: process-level observation of the panic.", "DESIGN.md §3 C15")
+
+claim("C16", "SSA descriptor/value/label tables, dominance rule on the unsigned subtraction, exhaustive evaluation of the counters, nil-guard rule",
+      "Decides that the exposed numbers are wired to what they claim: every MustNewConstMetric pairs its descriptor field with the origin the property names and "
+      "the ranged vBucket label; the discovery metric struct is filled from one GetInfo() value and the selected chunk's first/last element; the unsigned lag "
+      "hi-lo is dominated by hi>lo on the same operands, 0 otherwise, total lag is the running sum emitted after the loop; each document handler increments "
+      "exactly its own counter once per delivered event and Add* adds 1 to its own field; every send and observers use in Collect is dominated by "
+      "GetObservers()!=nil and the offsets endpoint tests IsOpen; the active-stream count is decremented by final ends only. NOT decided: atomicity of a scrape.",
+      "DESIGN.md §3 C16")
+
+claim("C17", "control-dependence rules on every defaulting store, override tables keyed by yaml tags, constant-multiplier table of the unit switch",
+      "Decides the structure of configuration defaulting: each of the 27+ defaulting stores is control-dependent on the zero-test of the very field it writes, on "
+      "nothing else, and stores a non-zero value (explicit values preserved, idempotent); the two environment overrides are the only other stores - after the "
+      "default, guarded only by Getenv!=\"\", value Atoi(Getenv); in the three derived-settings getters every Config[K] lookup assigns exactly the field whose "
+      "yaml tag is K from that lookup, no field is recomputed after overrides, inherited fields copy the like-named main-connection field; the unit switch "
+      "returns int(parsedFloat x 1024^k) with the conversion after the multiplication, numeric part = all but the last two bytes trimmed with comma->point. "
+      "NOT decided: the documented default values themselves, float truncation, the ${VAR} regex substitution.", "DESIGN.md §3 C17")
+
+claim("C18", "exhaustive order-abstraction evaluation (81 relation vectors) of the comparison methods and of the gates; parser tables with existence conditions",
+      "Decides for ALL integer field values that Higher is the lexicographic >, Equal the component-wise =, Lower the lexicographic < on (Major, Minor, Patch, "
+      "Build) - exactly one holds, antisymmetric and transitive by construction; useExpiryOpcode <=> Higher||Equal(6.5.0.0), useChangeStreams <=> IsMagma && "
+      "(Higher||Equal(7.2.0.0)) as handed to DcpConnect, serial close <=> Lower(5.5.0.0) alone, with the constants holding those tuples - hence monotone; the "
+      "parser fills Major/Minor/Patch/Build from the denoted parts, each under exactly the length conditions that say the part exists, and returns every Atoi "
+      "error except the build's. NOT decided: arbitrary malformed strings.", "DESIGN.md §3 C18")
+
+claim("C19", "exhaustive abstract evaluation of a health-check round (all ping patterns x cancellation points), blocking-construct scan, once/join pairing rules",
+      "Decides the round semantics for all 2^5 ping outcomes x every retry wait at which Stop can land: return at the first success without further pings, panic "
+      "exactly on the fifth consecutive failure, no ping after a cancelled wait, no state carried between rounds (a dependence on receiver state makes it "
+      "undecided = failing); the only blocking construct in run/performHealthCheck is a select with a ctx.Done() case (no sleep); Start/Stop bodies are entirely "
+      "inside their Once.Do, wg.Add(1) before go run, run defers Done first, Stop cancels then waits, Once fields never reassigned. NOT decided: wall-clock "
+      "promptness.", "DESIGN.md §3 C19")
+
+claim("C20", "typed inventory of asynchronous call sites, path-language rule on callbacks (resolve-once-before-send, capacity), error-forwarding path rule, deadline provenance through callers",
+      "Decides the async-call protocol at all 19 call sites of gocbcore operations returning (PendingOp, error): the completion signal is buffered and Wait = "
+      "dispatch error | select{ctx.Done->Cancel, signal} then ctx.Err() (exhaustive); every callback resolves exactly once before any send on every path, sends "
+      "within the capacity of channels created in the enclosing call, and feeds every channel the wrapper awaits; the callback's error reaches the wrapper's "
+      "result and is forwarded on every path on which it is non-nil; results are dereferenced only under err==nil (defects F4, F5 repaired in /repo); every "
+      "operation has its own time.Now-based deadline or a context that is deadline-bearing at every call site (followed through callers and closures). NOT "
+      "decided: gocbcore after Cancel, timing around the deadline.", "DESIGN.md §3 C20, §4")
